@@ -100,7 +100,7 @@ class Ctx:
             if self.pins is not None:
                 v = self.pins[name]
                 self.inputs[name] = v
-                return Fraction(v)
+                return Sym(core._term(Fraction(v)))
             x = z3.Real(name)
             self.inputs[name] = x
             eng = core.ENGINE
@@ -155,7 +155,7 @@ class Ctx:
         for idx in np.ndindex(*shape):
             a[idx] = self.real(name + "_" + "_".join(map(str, idx)), lo, hi)
         if self.sym:
-            return nparr.wrap(a)
+            return nparr.set_sd(nparr.wrap(a), np.float64)
         return a.astype(np.float64)
 
     def ints(self, name, shape, lo=None, hi=None):
@@ -164,7 +164,40 @@ class Ctx:
         for idx in np.ndindex(*shape):
             a[idx] = self.int(name + "_" + "_".join(map(str, idx)), lo, hi)
         if self.sym:
-            return nparr.wrap(a)
+            return nparr.set_sd(nparr.wrap(a), np.int64)
+        return a.astype(np.int64)
+
+    def bv(self, name):
+        """an arbitrary 64-bit machine integer (int64 semantics)"""
+        self.decl.append((name, "bv", None, None))
+        if self.sym:
+            if self.pins is not None:
+                v = int(self.pins[name])
+                self.inputs[name] = v
+                return v
+            x = z3.BitVec(name, 64)
+            self.inputs[name] = x
+            core.ENGINE.inputs[name] = x
+            return core.SymBV(x, True)
+        if name in self.values:
+            v = int(self.values[name])
+        elif self.mode == "sample":
+            r = self.rng
+            v = r.choice([r.randint(-5, 5), r.randint(-(1 << 63), (1 << 63) - 1), (1 << r.randint(1, 62)) + r.randint(-2, 2), -(1 << r.randint(1, 62)) + r.randint(-2, 2)])
+            self.values[name] = v
+        else:
+            v = 0
+            self.values[name] = v
+        self.inputs[name] = v
+        return int(v)
+
+    def bvs(self, name, shape):
+        shape = (shape,) if isinstance(shape, int) else tuple(shape)
+        a = np.empty(shape, dtype=object)
+        for idx in np.ndindex(*shape):
+            a[idx] = self.bv(name + "_" + "_".join(map(str, idx)))
+        if self.sym:
+            return nparr.set_sd(nparr.wrap(a), np.int64)
         return a.astype(np.int64)
 
     def bools(self, name, shape):
@@ -173,8 +206,63 @@ class Ctx:
         for idx in np.ndindex(*shape):
             a[idx] = self.bool(name + "_" + "_".join(map(str, idx)))
         if self.sym:
-            return nparr.wrap(a)
+            return nparr.set_sd(nparr.wrap(a), bool)
         return a.astype(bool)
+
+    def angle(self, name, half=False, kind="circle"):
+        """an arbitrary angle: a point (c, s) of the unit circle (symbolic run) / a float (concrete run);
+        half=True parametrises by the half angle so that angle/2 stays algebraic.
+        kind="tan": rational parametrisation c=(1-t^2)/(1+t^2), s=2t/(1+t^2) (every angle except pi) -- no constraint, identities become
+        rational-function identities; kind="pi": the constant pi"""
+        from . import angle as A
+        import math
+
+        if kind == "pi":
+            if self.sym:
+                a = A.Angle(-1, 0)
+                return A.Angle(1, 0, half=a) if half else a
+            return 2 * math.pi if half else math.pi
+        if kind == "tan":
+            t = self.real(name + "_t", -1000, 1000)
+            if self.sym:
+                c, s = (1 - t * t) / (1 + t * t), 2 * t / (1 + t * t)
+                a = A.Angle(c, s)
+                return A.Angle(c * c - s * s, 2 * s * c, half=a) if half else a
+            th = 2 * math.atan(t)
+            return 2 * th if half else th
+
+        c = self.real(name + "_c", -1, 1)
+        s = self.real(name + "_s", -1, 1)
+        if self.sym:
+            if self.pins is None:
+                core.ENGINE.add_assumption(c.t * c.t + s.t * s.t == 1)
+            else:
+                # pinned exact run: project the sampled point onto the circle rationally (stereographic)
+                c, s = _project(self.pins[name + "_c"], self.pins[name + "_s"])
+                c, s = Sym(core._term(c)), Sym(core._term(s))
+            a = A.Angle(c, s)
+            if half:
+                return A.Angle(c * c - s * s, 2 * s * c, half=a)
+            return a
+        if self.mode == "sample":
+            cc, ss = _project(self.values[name + "_c"], self.values[name + "_s"])
+            c, s = float(cc), float(ss)
+        import math
+
+        th = math.atan2(s, c)
+        return 2 * th if half else th
+
+    def eq_angle(self, name, got, exp):
+        """equal modulo 2 pi"""
+        from . import angle as A
+        import math
+
+        if self.sym:
+            g = got if isinstance(got, A.Angle) else A.Angle(Fraction(math.cos(got)).limit_denominator(10**12), Fraction(math.sin(got)).limit_denominator(10**12)) if got not in (0, 0.0) else A.Angle(1, 0)
+            e = exp if isinstance(exp, A.Angle) else A.Angle(1, 0) if exp in (0, 0.0) else None
+            self.eq(name, [g.c, g.s], [e.c, e.s])
+        else:
+            self.eq(name, [math.cos(got), math.sin(got)], [math.cos(exp), math.sin(exp)])
 
     def choice(self, name, n):
         """a symbolic Int in [0,n) resolved to a concrete python int by forking"""
@@ -226,6 +314,10 @@ class Ctx:
             for a, b in zip(g.reshape(-1), e.reshape(-1)):
                 if isinstance(a, (SymBool, bool, np.bool_)) or isinstance(b, (SymBool, bool, np.bool_)):
                     conj.append(_zb(a) == _zb(b))
+                    continue
+                if getattr(a, "_is_bv", False) or getattr(b, "_is_bv", False):
+                    bvv = a if getattr(a, "_is_bv", False) else b
+                    conj.append(bvv._o(a) == bvv._o(b))
                     continue
                 if not is_sym(a) and not is_sym(b):
                     if core.frac(a) != core.frac(b):
@@ -288,6 +380,13 @@ class Ctx:
         self.notes.append(s)
 
 
+def _project(c, s):
+    """rational point of the unit circle from an arbitrary rational pair (stereographic)"""
+    c, s = Fraction(c), Fraction(s)
+    t = s / (1 + c) if c != -1 else Fraction(1)
+    return (1 - t * t) / (1 + t * t), 2 * t / (1 + t * t)
+
+
 def _short(x):
     s = repr(x)
     return s if len(s) < 300 else s[:300] + "..."
@@ -336,6 +435,8 @@ def _model_values(model, ctx_inputs):
         v = model.eval(const, model_completion=True)
         if z3.is_bool(v):
             vals[name] = z3.is_true(v)
+        elif z3.is_bv_value(v):
+            vals[name] = v.as_signed_long()
         elif z3.is_int_value(v):
             vals[name] = v.as_long()
         elif z3.is_rational_value(v):
